@@ -95,18 +95,19 @@ func (k Keeper) HandleSlashEpoch(ctx sdk.Context) {
 	threshold := slashFaultThreshold.MulInt64(int64(challengeCount)).Ceil().TruncateInt().Uint64()
 	powerReduction := k.StakingKeeper.PowerReduction(ctx)
 	k.IterateFaultCounters(ctx, func(operator sdk.ValAddress, faultCount uint64) bool {
-		validator, err := k.StakingKeeper.Validator(ctx, operator)
-		if err != nil {
-			k.Logger.Error(err.Error())
-			return false
-		}
-
+		// every counter is reset at the epoch end, also that of an operator that left the validator set
 		defer func() {
 			err := k.DeleteFaultCounter(ctx, operator)
 			if err != nil {
 				k.Logger.Error(err.Error())
 			}
 		}()
+
+		validator, err := k.StakingKeeper.Validator(ctx, operator)
+		if err != nil {
+			k.Logger.Error(err.Error())
+			return false
+		}
 		if validator.IsJailed() || !validator.IsBonded() {
 			return false
 		}
